@@ -158,3 +158,401 @@ def enum_discriminants(facts, path):
     if not a or a["kind"] != "enum":
         return None
     return {v["name"]: v.get("discr") for v in a["variants"]}
+
+
+# --------------------------------------------------------------------------- ordered calls
+
+def ordered_calls(n, guards=(), flags=frozenset()):
+    """yields (call node, guards, flags) in evaluation order.  guards: tuple of
+    ('if', cond, polarity) / ('match', scrut, pat); flags: subset of {'loop','closure','match'}"""
+    k = n.get("k")
+    if k == "block":
+        for s in n.get("stmts", []):
+            if s["k"] == "let":
+                if "init" in s:
+                    yield from ordered_calls(s["init"], guards, flags)
+                if "els" in s:
+                    yield from ordered_calls(s["els"], guards + (("letelse", s["pat"], False),), flags)
+            else:
+                yield from ordered_calls(s["e"], guards, flags)
+        if "expr" in n:
+            yield from ordered_calls(n["expr"], guards, flags)
+        return
+    if k == "if":
+        yield from ordered_calls(n["cond"], guards, flags)
+        yield from ordered_calls(n["then"], guards + (("if", n["cond"], True),), flags)
+        if "else" in n:
+            yield from ordered_calls(n["else"], guards + (("if", n["cond"], False),), flags)
+        return
+    if k == "match":
+        yield from ordered_calls(n["scrut"], guards, flags)
+        for a in n["arms"]:
+            g = guards + (("match", n["scrut"], a["pat"]),)
+            if "guard" in a:
+                yield from ordered_calls(a["guard"], g, flags | {"match"})
+            yield from ordered_calls(a["body"], g, flags | {"match"})
+        return
+    if k == "loop":
+        yield from ordered_calls(n["body"], guards, flags | {"loop"})
+        return
+    if k == "closure":
+        yield from ordered_calls(n["body"], guards, flags | {"closure"})
+        return
+    if k in ("call", "mcall"):
+        if k == "call":
+            yield from ordered_calls(n["f"], guards, flags)
+        for a in H.call_args(n):
+            yield from ordered_calls(a, guards, flags)
+        yield n, guards, flags
+        return
+    for ch in H.children(n):
+        yield from ordered_calls(ch, guards, flags)
+
+
+IS_NONE = "core::option::Option::<T>::is_none"
+
+
+def presence_guard(guards):
+    """normalise the guard list of an emission: None (unconditional) or
+    {'pred': callee path, 'field': self field tested, 'emit_when_pred': bool}"""
+    if not guards:
+        return None
+    if len(guards) != 1 or guards[0][0] != "if":
+        raise Unreadable("emission under a guard that is not a single `if`")
+    _, cond, pol = guards[0]
+    c = H.strip_block(cond)
+    neg = False
+    while c.get("k") == "unary" and c["op"] == "not":
+        neg = not neg
+        c = H.strip_block(c["e"])
+    if c.get("k") not in ("call", "mcall") or not c.get("callee"):
+        raise Unreadable("presence predicate is not a call")
+    args = H.call_args(c)
+    if len(args) != 1:
+        raise Unreadable("presence predicate with %d arguments" % len(args))
+    f = H.self_field(args[0])
+    if f is None:
+        raise Unreadable("presence predicate does not test a field of self")
+    # emitted when (pred xor neg) == pol
+    emit_when_pred = (pol != neg)
+    return {"pred": c["callee"], "field": f, "emit_when_pred": emit_when_pred}
+
+
+# --------------------------------------------------------------------------- serde: Serialize
+
+def ser_impl(F, path):
+    l = F.impl_fn(SER, path, "serialize")
+    if len(l) != 1:
+        return None
+    return l[0]
+
+
+def de_impl(F, path):
+    l = F.impl_fn(DE, path, "deserialize")
+    if len(l) != 1:
+        return None
+    return l[0]
+
+
+def impl_kind(fn):
+    pv = (fn.get("impl") or {}).get("impl_pv", "user")
+    for k in ("SerializeIndexed", "DeserializeIndexed", "Serialize_repr", "Deserialize_repr", "Serialize", "Deserialize"):
+        if pv == "derive:" + k:
+            return k
+    return "user" if pv == "user" else pv
+
+
+def map_ser_table(fn):
+    """Serialize impl that emits a map: indexed (serialize_map/serialize_entry with integer keys)
+    or text-keyed (serialize_struct/serialize_field).  Returns dict(kind, entries, header)."""
+    entries = []
+    header = None
+    kind = None
+    ended = False
+    for c, guards, flags in ordered_calls(fn["body"]):
+        cal = c.get("callee")
+        if cal == "serde_core::ser::Serializer::serialize_map":
+            a = H.strip_block(H.call_args(c)[1])
+            header = {"call": "serialize_map", "definite": a.get("k") == "call" and a.get("ctor") == "core::option::Option::Some", "node": c}
+            kind = "indexed"
+        elif cal == "serde_core::ser::Serializer::serialize_struct":
+            header = {"call": "serialize_struct", "definite": True, "name": H.lit(H.call_args(c)[1]), "node": c}
+            kind = "text"
+        elif cal == "serde_core::ser::SerializeMap::serialize_entry":
+            if flags:
+                raise Unreadable("serialize_entry inside %s" % sorted(flags))
+            args = H.call_args(c)
+            key = H.lit(args[1])
+            f = H.self_field(args[2])
+            if f is None:
+                raise Unreadable("serialize_entry value is not a field of self")
+            entries.append({"key": key, "field": f, "guard": presence_guard(guards), "node": c, "vty": (c.get("targs") or [None, None, None])[2]})
+        elif cal == "serde_core::ser::SerializeStruct::serialize_field":
+            if flags:
+                raise Unreadable("serialize_field inside %s" % sorted(flags))
+            args = H.call_args(c)
+            key = H.lit(args[1])
+            f = H.self_field(args[2])
+            if f is None:
+                raise Unreadable("serialize_field value is not a field of self")
+            entries.append({"key": key, "field": f, "guard": presence_guard(guards), "node": c, "vty": (c.get("targs") or [None, None])[1]})
+        elif cal in ("serde_core::ser::SerializeMap::end", "serde_core::ser::SerializeStruct::end"):
+            ended = True
+        elif cal in ("serde_core::ser::SerializeMap::serialize_key", "serde_core::ser::SerializeMap::serialize_value"):
+            raise Unreadable("split key/value emission")
+    if header is None:
+        return None
+    return {"kind": kind, "entries": entries, "header": header, "ended": ended}
+
+
+# --------------------------------------------------------------------------- serde: Deserialize
+
+def _while_let_loop(body):
+    """the `while let Some(key) = map.next_key()? { match key {..} }` loop of a visit_map:
+    returns (key binding id, match node) """
+    for s in body.get("stmts", []):
+        e = s.get("e")
+        if not e:
+            continue
+        e = H.strip_block(e)
+        if e.get("k") == "loop" and e.get("src") == "while":
+            inner = H.strip_block(e["body"])
+            if inner.get("k") == "block":
+                inner = H.strip_block(inner.get("expr", {}))
+            if inner.get("k") != "if":
+                raise Unreadable("while-let loop of unexpected shape")
+            cond = H.strip_block(inner["cond"])
+            if cond.get("k") != "letexpr":
+                raise Unreadable("loop condition is not `let Some(key) = next_key()?`")
+            binds = H.pat_bindings(cond["pat"])
+            init = H.strip_block(cond["init"])
+            if init.get("k") != "try" or H.strip_block(init["e"]).get("callee") != "serde_core::de::MapAccess::next_key":
+                raise Unreadable("loop does not iterate next_key()?")
+            if "else" not in inner or H.strip_block(inner["else"]).get("k") not in ("break", "block"):
+                raise Unreadable("loop else-branch is not `break`")
+            then = H.strip_block(inner["then"])
+            m = then
+            if then.get("k") == "block":
+                st = then.get("stmts", [])
+                if len(st) == 1 and "expr" not in then:
+                    m = H.strip_block(st[0]["e"])
+                elif not st and "expr" in then:
+                    m = H.strip_block(then["expr"])
+            if m.get("k") != "match":
+                raise Unreadable("loop body is not a single match on the key")
+            if len(binds) != 1 or H.local_id(m["scrut"]) != binds[0][1]:
+                raise Unreadable("loop body does not match on the key")
+            return binds[0][1], m, s
+    raise Unreadable("no while-let loop over next_key()")
+
+
+def _arm_store(arm_body):
+    """in a visit_map arm: (assigned local name, decoded type, has duplicate check, value node)"""
+    b = H.strip_block(arm_body)
+    stmts = list(b.get("stmts", [])) if b.get("k") == "block" else []
+    if b.get("k") == "block" and "expr" in b:
+        stmts.append({"k": "expr", "e": b["expr"]})
+    dup = False
+    store = None
+    for s in stmts:
+        e = H.strip_block(s.get("e") or {})
+        if e.get("k") == "if":
+            c = H.strip_block(e["cond"])
+            if c.get("callee") == "core::option::Option::<T>::is_some" and H.diverges(e["then"]):
+                if any(x.get("callee") == "serde_core::de::Error::duplicate_field" for x in H.walk(e["then"])):
+                    dup = H.local_name(H.call_args(c)[0])
+        elif e.get("k") == "assign":
+            store = e
+    if store is None:
+        return None
+    target = H.local_name(store["l"])
+    r = H.strip_block(store["r"])
+    if not (r.get("k") == "call" and r.get("ctor") == "core::option::Option::Some"):
+        raise Unreadable("arm does not store Some(value)")
+    val = r["args"][0]
+    nv = [x for x in H.walk(val) if x.get("callee") == "serde_core::de::MapAccess::next_value"]
+    if len(nv) != 1:
+        raise Unreadable("arm does not decode exactly one value")
+    return {"local": target, "dup": dup == target, "ty": (nv[0].get("targs") or [None, None])[1], "val": val, "val_ty": val.get("ty")}
+
+
+def indexed_de_table(F, fn):
+    """DeserializeIndexed impl -> dict(entries [{key, field, ty, dup}], required {field}, catchall_err)"""
+    vms = [c for c in F.nested(fn, name="visit_map")]
+    if len(vms) != 1:
+        raise Unreadable("no unique visit_map")
+    vm = vms[0]
+    body = vm["body"]
+    key_id, m, loop_stmt = _while_let_loop(body)
+    entries = []
+    catch = None
+    for a in m["arms"]:
+        if "guard" in a:
+            raise Unreadable("guard in key match")
+        vals, ca = pat_values(a["pat"], F)
+        if ca:
+            catch = "err" if (H.diverges(a["body"]) and any(x.get("ctor") == "core::result::Result::Err" for x in H.walk(a["body"]))) else "accept"
+            break
+        st = _arm_store(a["body"])
+        if st is None:
+            raise Unreadable("key arm without a store")
+        for v in sorted(vals):
+            entries.append({"key": v, "local": st["local"], "ty": st["ty"], "dup": st["dup"]})
+    # post-loop: required members and the tail struct literal
+    required = {}
+    after = False
+    shadow = {}   # new local name -> original local name
+    for s in body.get("stmts", []):
+        if s is loop_stmt:
+            after = True
+            continue
+        if not after or s["k"] != "let":
+            continue
+        init = H.strip_block(s.get("init") or {})
+        if init.get("k") == "try":
+            call = H.strip_block(init["e"])
+            if call.get("callee") == "core::option::Option::<T>::ok_or_else":
+                src = H.local_name(H.call_args(call)[0])
+                miss = [H.lit(H.call_args(x)[0]) for x in H.walk(call) if x.get("callee") == "serde_core::de::Error::missing_field"]
+                if len(miss) == 1 and s["pat"].get("k") == "bind":
+                    required[src] = miss[0]
+                    shadow[s["pat"]["name"]] = src
+                    continue
+        raise Unreadable("unexpected statement after the key loop")
+    tail = H.strip_block(body.get("expr", {}))
+    if not (tail.get("k") == "call" and tail.get("ctor") == "core::result::Result::Ok"):
+        raise Unreadable("visit_map does not end in Ok(..)")
+    st = H.strip_block(tail["args"][0])
+    if st.get("k") != "struct":
+        raise Unreadable("visit_map does not build the struct")
+    local_to_field = {}
+    for f in st["fields"]:
+        ln = H.local_name(f["e"])
+        if ln is None:
+            raise Unreadable("struct field %s is not initialised from a key local" % f["name"])
+        local_to_field.setdefault(shadow.get(ln, ln), []).append(f["name"])
+    for e in entries:
+        fs = local_to_field.get(e["local"], [])
+        e["field"] = fs[0] if len(fs) == 1 else None
+    return {"entries": entries, "required": {local_to_field.get(k, [None])[0]: v for k, v in required.items()},
+            "catchall": catch, "struct": st["res"].get("path"), "fields_built": [f["name"] for f in st["fields"]], "visit_map": vm}
+
+
+def text_de_table(F, fn):
+    """derive(Deserialize) struct impl -> dict(names {str: idx}, unknown: 'ignore'|'error'|..,
+    members {idx: {field, ty, with, missing: 'missing_field'|'default', dup}}, entry: deserialize_struct?)"""
+    vstr = [c for c in F.nested(fn, name="visit_str") if "__FieldVisitor" in c["impl"]["self_ty"]["s"]]
+    vmap = [c for c in F.nested(fn, name="visit_map") if "__Visitor" in c["impl"]["self_ty"]["s"]]
+    if len(vstr) != 1 or len(vmap) != 1:
+        raise Unreadable("not a derive(Deserialize) struct impl")
+    # names
+    m, rows = conversion_table(vstr[0], F)
+    names = {}
+    unknown = None
+    for r in rows:
+        k, c = result_value(r["res"], F)
+        ident = c.split("::")[-1] if k == "ctor" and c else None
+        if r["catchall"]:
+            if r["kind"] == "ok" and ident == "__ignore":
+                unknown = "ignore"
+            elif r["kind"] == "err" or any(x.get("callee") == "serde_core::de::Error::unknown_field" for x in H.walk(r["res"])):
+                unknown = "error"
+            else:
+                unknown = "other"
+            break
+        if r["kind"] != "ok" or ident is None:
+            raise Unreadable("field-name arm of unexpected shape")
+        for v in r["vals"]:
+            names.setdefault(v, ident)
+    vm = vmap[0]
+    body = vm["body"]
+    key_id, km, loop_stmt = _while_let_loop(body)
+    withs = [c for c in F.nested(vm, name="deserialize") if "__DeserializeWith" in c["impl"]["self_ty"]["s"]]
+    wi = 0
+    members = {}
+    ignore_consumes = None
+    for a in km["arms"]:
+        p = a["pat"]
+        if H.pat_is_catchall(p):
+            nv = [x for x in H.walk(a["body"]) if x.get("callee") == "serde_core::de::MapAccess::next_value"]
+            ignore_consumes = len(nv) == 1 and (nv[0].get("targs") or [None, None])[1] == "serde_core::de::ignored_any::IgnoredAny"
+            break
+        ident = (H.pat_ctor(p) or "").split("::")[-1]
+        st = _arm_store(a["body"])
+        if st is None:
+            raise Unreadable("field arm without a store")
+        mem = {"local": st["local"], "dup": st["dup"], "ty": st["ty"], "with": None, "val_ty": st["val_ty"]}
+        if st["ty"] and "__DeserializeWith" in st["ty"]:
+            if wi >= len(withs):
+                raise Unreadable("deserialize_with wrapper not found")
+            w = withs[wi]
+            wi += 1
+            calls = [x for x in H.walk(w["body"]) if x.get("k") == "call" and x.get("callee") and x.get("callee_krate") == "ctap_types"]
+            if len(calls) != 1:
+                raise Unreadable("deserialize_with wrapper does not call exactly one crate function")
+            mem["with"] = {"fn": calls[0]["callee"], "targs": calls[0].get("targs")}
+            # decoded type = type of the wrapper's `value` field
+            mem["ty"] = None
+            for x in H.walk(w["body"]):
+                if x.get("k") == "struct":
+                    for f in x["fields"]:
+                        if f["name"] == "value":
+                            mem["ty"] = f["e"].get("ty")
+        members[ident] = mem
+    # post-loop: missing handling
+    after = False
+    for s in body.get("stmts", []):
+        if s is loop_stmt:
+            after = True
+            continue
+        if not after or s["k"] != "let":
+            continue
+        init = H.strip_block(s.get("init") or {})
+        if init.get("k") != "match":
+            raise Unreadable("unexpected statement after the key loop")
+        src = H.local_name(init["scrut"])
+        how = None
+        for a in init["arms"]:
+            c = H.pat_ctor(a["pat"])
+            if c == "core::option::Option::None":
+                b = H.strip_block(a["body"])
+                if b.get("k") == "try" and H.strip_block(b["e"]).get("callee") == "serde::private::de::missing_field":
+                    how = ("missing_field", H.lit(H.call_args(H.strip_block(b["e"]))[0]), (H.strip_block(b["e"]).get("targs") or [None])[0])
+                elif b.get("callee") == "core::default::Default::default":
+                    how = ("default", None, (b.get("targs") or [None])[0])
+                else:
+                    how = ("other", None, None)
+        for ident, mem in members.items():
+            if mem["local"] == src:
+                mem["missing"] = how
+    tail = H.strip_block(body.get("expr", {}))
+    if not (tail.get("k") == "call" and tail.get("ctor") == "core::result::Result::Ok"):
+        raise Unreadable("visit_map does not end in Ok(..)")
+    st = H.strip_block(tail["args"][0])
+    if st.get("k") != "struct":
+        raise Unreadable("visit_map does not build the struct")
+    for f in st["fields"]:
+        ln = H.local_name(f["e"])
+        for ident, mem in members.items():
+            if mem["local"] == ln:
+                mem.setdefault("fields", []).append(f["name"])
+    for mem in members.values():
+        fs = mem.pop("fields", [])
+        mem["field"] = fs[0] if len(fs) == 1 else None
+    entry = [x.get("callee") for x in H.walk(fn["body"]) if (x.get("callee") or "").startswith("serde_core::de::Deserializer::deserialize_")]
+    return {"names": names, "unknown": unknown, "ignore_consumes": ignore_consumes, "members": members, "entry": entry,
+            "struct": st["res"].get("path"), "fields_built": [f["name"] for f in st["fields"]], "visit_map": vm, "visit_str": vstr[0]}
+
+
+def member_required(mem):
+    """serde semantics: a member is required iff absence raises missing_field *and* the decoded
+    type is not Option<_> (serde's missing_field yields None for Option members)"""
+    how = mem.get("missing")
+    if not how:
+        return None
+    if how[0] == "default":
+        return False
+    if how[0] == "missing_field":
+        ty = how[2] or mem.get("ty") or ""
+        return not ty.startswith("core::option::Option<")
+    return None
